@@ -28,7 +28,14 @@ def hook(interp, name, args, t, body):
                 return ('durparts', {seg[5:]: (a0[1][1], a0[1][2])})
             if a0[0] == 'bv':
                 return ('durparts', {seg[5:]: (a0[1], 1)})
-        if seg in ('new',):
+        if seg == 'new' and len(args) == 2:
+            # Duration::new(whole seconds, nanoseconds): the two parts of a time put together (the nanoseconds a fraction times its unit)
+            a1 = interp.deref_all(args[1])
+            if a0 is not None and a0[0] == 'bv' and a1 is not None:
+                if a1[0] == 'sym' and a1[1][0] == 'mul':
+                    return ('durparts', {'secs': a0[1], 'nanos': (a1[1][1], a1[1][2])})
+                if a1[0] == 'bv':
+                    return ('durparts', {'secs': a0[1], 'nanos': (a1[1], 1)})
             raise Unmodelled('Duration::new with computed parts')
     if name in ('core::ops::arith::Add::add', 'core::time::Duration::saturating_add', 'core::time::Duration::checked_add') and len(args) == 2 \
             and args[0][0] == 'durparts' and args[1][0] == 'durparts':
